@@ -2,23 +2,50 @@ from verif import Ob
 TX_UNITS = ['htp_transaction.c', 'htp_hooks.c', 'htp_list.c', 'htp_table.c', 'bstr.c', 'htp_connection.c', 'htp_connection_parser.c', 'htp_config.c', 'htp_util.c', 'htp_request.c', 'htp_response.c', 'htp_utf8_decoder.c']
 TX_RM = ['htp_log']
 CBS = 'cb_req_start,cb_req_line,cb_req_headers,cb_req_body,cb_req_trailer,cb_req_complete,cb_res_start,cb_res_line,cb_res_headers,cb_res_body,cb_res_complete,cb_txc'
-def hist(m0, b0, s0, th=0, ad=0, nreq=2, rounds=3, tier='quick', timeout=600, mem_gb=8, **kw):
-    d = {'NREQ': nreq, 'ROUNDS': rounds, 'M0': m0, 'B0': b0, 'S0': s0, 'TH': th, 'AD': ad, 'M1': 'HTP_M_GET'}
-    k407 = (m0 == 'HTP_M_CONNECT' and s0 == 407 and nreq > 1)
-    nm = 'hist.%s%s.%d%s.ad%d.N%d.R%d' % (m0.replace('HTP_M_', ''), '+body' if b0 else '', s0, '.http' if th else '', ad, nreq, rounds)
+def hist(script, th=0, ad=0, rounds=3, tier='quick', timeout=600, mem_gb=8, **kw):
+    """script: list of (method, body, status)"""
+    nreq = len(script)
+    d = {'NREQ': nreq, 'ROUNDS': rounds, 'TH': th, 'AD': ad}
+    for k, (m, b, st) in enumerate(script):
+        d['M%d' % k] = m; d['S%d' % k] = st
+        if k == 0: d['B0'] = b
+    nm = 'hist.' + '_'.join('%s%s%d' % (m.replace('HTP_M_', ''), '+b' if b else '', st) for m, b, st in script) + ('.http' if th else '') + '.ad%d.R%d' % (ad, rounds)
+    f4 = any(m == 'HTP_M_CONNECT' and (st == 404 or (st == 200 and th)) for m, b, st in script)
+    k407 = any(m == 'HTP_M_CONNECT' and st == 407 for m, b, st in script[:-1])
     return Ob(nm, 'tx/hist.c', units=TX_UNITS, models=['@libc_model.c'], remove=TX_RM, defines=d,
               unwind=9 * nreq + 6, unwindset=['strlen.0:40', 'memcmp.0:40'], restrict_by=[(r'callback|->fn|\.fn', CBS)], object_bits=11,
-              tier=tier, timeout=timeout, mem_gb=mem_gb, kfs=(['F4-double-complete'] if (m0 == 'HTP_M_CONNECT' and (s0 == 404 or (s0 == 200 and th))) else []) + (['C04-407-no-yield'] if k407 else []), kf_only=k407,
+              tier=tier, timeout=timeout, mem_gb=mem_gb, kfs=(['F4-double-complete'] if f4 else []) + (['C04-407-no-yield'] if k407 else []), kf_only=k407,
               statement='lifecycle monitor over a bounded history: callbacks in protocol order, progress monotone, REQUEST/RESPONSE/TRANSACTION_COMPLETE at most once, TRANSACTION_COMPLETE only when both sides complete and nothing after it, completion in arrival order, request i paired with response i, DATA_OTHER hand-overs make progress, tunnel mode produces nothing',
-              bounds='script: request 0 = %s%s answered %d%s, then GET answered 200; tx_auto_destroy=%d; %d rounds of (request side runs until it yields, response side runs until it yields)' % (m0, ' with 1-byte body' if b0 else '', s0, ', tunnel payload is HTTP' if th else '', ad, rounds), **kw)
+              bounds='script %s%s; tx_auto_destroy=%d; %d rounds of (request side runs until it yields, response side runs until it yields)' % (script, ', tunnel payload is HTTP' if th else '', ad, rounds), **kw)
 
-def hist_all(tier, nreq=2, rounds=3, t='quick'):
+G = 'HTP_M_GET'; CN = 'HTP_M_CONNECT'
+def hist_all(tier, t='quick', which='all'):
     obs = []
-    for m0, b0 in (('HTP_M_GET', 0), ('HTP_M_GET', 1), ('HTP_M_CONNECT', 0)):
-        for s0 in (200, 404, 407, 101, 100):
-            for ad in (0, 1):
-                obs.append(hist(m0, b0, s0, 0, ad, nreq, rounds, tier=t))
     for ad in (0, 1):
-        obs.append(hist('HTP_M_CONNECT', 0, 200, 1, ad, nreq, rounds, tier=t))
-        if nreq == 2: obs.append(hist('HTP_M_CONNECT', 0, 407, 0, ad, 1, rounds, tier=t))
+        for s0 in (200, 404, 407, 101, 100):
+            if which == 'all':
+                obs.append(hist([(G, 0, s0), (G, 0, 200)], 0, ad, 3, tier=t))
+                obs.append(hist([(G, 1, s0), (G, 0, 200)], 0, ad, 3, tier=t))
+            obs.append(hist([(CN, 0, s0), (G, 0, 200)], 0, ad, 3, tier=t))
+        obs.append(hist([(CN, 0, 200), (G, 0, 200)], 1, ad, 3, tier=t))
+        obs.append(hist([(CN, 0, 407)], 0, ad, 3, tier=t))
+        # a request pipelined ahead of a CONNECT, and one behind it
+        for s1 in (200, 404):
+            obs.append(hist([(G, 0, 200), (CN, 0, s1), (G, 0, 200)], 0, ad, 4, tier=t))
     return obs
+
+CCBS = 'cb_reqc,cb_resc,cb_txc,cb_reqbody,cb_resbody'
+def complete_all(tier='quick'):
+    obs = []
+    for f, nm in ((1, 'response_complete_ex'), (2, 'request_complete'), (3, 'finalize')):
+        for ad in (0, 1):
+            obs.append(Ob('complete.%s.ad%d' % (nm, ad), 'tx/complete.c', units=TX_UNITS, models=['@libc_model.c'], remove=TX_RM, defines={'FUNC': f, 'AD': ad}, unwind=8, unwindset=['strlen.0:40'],
+                          restrict_by=[(r'callback|->fn|\\.fn', CCBS)], object_bits=11, tier=tier, timeout=600, mem_gb=8,
+                          statement='%s from any lifecycle state: *_COMPLETE hooks at most once, end-of-body marker before completion, TRANSACTION_COMPLETE iff both sides complete, DATA_OTHER hand-over iff the request side waits on this transaction (or the one-shot refused-CONNECT flag)' % nm,
+                          bounds='one real transaction; request/response progress, transfer codings, in_tx in {this, other, NULL}, in_status, yield flag, hybrid flag and the return code of each hook symbolic; tx_auto_destroy=%d' % ad))
+    return obs
+
+def acct(tier='quick'):
+    return Ob('acct.body_data', 'tx/acct.c', units=TX_UNITS, models=['@libc_model.c'], remove=TX_RM, unwind=6, unwindset=['strlen.0:40'], restrict_by=[(r'callback|->fn|\\.fn', 'cb_req,cb_res')], object_bits=11, tier=tier, timeout=600, mem_gb=8,
+              statement='entity length == bytes delivered to body callbacks, response message length == bytes taken, end-of-body marker once and last, every pointer/len handed out lies inside the caller buffer',
+              bounds='3 data calls (direction, offset and length <= 4 symbolic) + the two end-of-body calls, no content coding')
